@@ -40,6 +40,12 @@ pub struct Case {
     pub y0: Vec<f64>,
     pub rtol: Vec<f64>, // len 1 = scalar
     pub atol: Vec<f64>,
+    /// pass the tolerances as Tolerance::Vector even when they have one element
+    #[serde(default)]
+    pub tol_vec: bool,
+    /// > 0: configure event directions through `Direction::from(+-dir_code)` instead of the enum
+    #[serde(default)]
+    pub dir_code: i32,
     #[serde(default)]
     pub first_step: Option<f64>,
     #[serde(default)]
@@ -198,10 +204,14 @@ impl<'a> IVP for Instr<'a> {
     fn event_config(&self, i: usize) -> EventConfig {
         let e = &self.case.events[i];
         let mut c = EventConfig::new();
+        // every other case configures the filter through the integer codes of `Direction::from` (SciPy convention:
+        // any positive code = rising only, any negative code = falling only, 0 = both); magnitudes 1, 2, 3
+        let mag = if self.case.dir_code > 0 { self.case.dir_code } else { 1 + ((self.case.id / 2) % 3) as i32 };
+        let by_code = self.case.dir_code > 0 || self.case.id % 2 == 1;
         c.direction(match e.dir.as_str() {
-            "Pos" => Direction::Positive,
-            "Neg" => Direction::Negative,
-            _ => Direction::All,
+            "Pos" => if by_code { Direction::from(mag) } else { Direction::Positive },
+            "Neg" => if by_code { Direction::from(-mag) } else { Direction::Negative },
+            _ => if by_code { Direction::from(0) } else { Direction::All },
         });
         if e.term > 0 {
             c.terminal_count(e.term);
@@ -332,8 +342,8 @@ impl<'a, 'b> SolOut for RecSolOut<'a, 'b> {
     }
 }
 
-fn tol(v: &[f64]) -> Tolerance {
-    if v.len() == 1 { Tolerance::Scalar(v[0]) } else { Tolerance::Vector(v.to_vec()) }
+fn tol(v: &[f64], force_vec: bool) -> Tolerance {
+    if v.len() == 1 && !force_vec { Tolerance::Scalar(v[0]) } else { Tolerance::Vector(v.to_vec()) }
 }
 
 fn storage(kind: &str, n: usize, bw: usize) -> MatrixStorage {
@@ -392,8 +402,8 @@ pub fn execute(case: &Case, instr: &Instr) -> Outcome {
         if case.api == "solve_ivp" {
             let mut o = Options::builder()
                 .method(method_of(&case.method))
-                .rtol(tol(&case.rtol))
-                .atol(tol(&case.atol))
+                .rtol(tol(&case.rtol, case.tol_vec))
+                .atol(tol(&case.atol, case.tol_vec))
                 .dense_output(case.dense)
                 .jac_storage(storage(&case.jac_storage, n, bw))
                 .mass_storage(storage(&case.mass_storage, n, bw))
@@ -418,22 +428,22 @@ pub fn execute(case: &Case, instr: &Instr) -> Outcome {
                 }
                 "RK23" => RK23::builder().maybe_max_step(case.max_step).maybe_first_step(case.first_step)
                     .max_steps(ms.unwrap_or(10_000)).dense_output(!case.low_nodense).build()
-                    .solve(instr, case.x0, &case.y0, case.xend, tol(&case.rtol), tol(&case.atol), Some(&mut so)),
+                    .solve(instr, case.x0, &case.y0, case.xend, tol(&case.rtol, case.tol_vec), tol(&case.atol, case.tol_vec), Some(&mut so)),
                 "DOPRI5" => DOPRI5::builder().maybe_max_step(case.max_step).maybe_first_step(case.first_step)
                     .max_steps(ms.unwrap_or(100_000)).dense_output(!case.low_nodense).build()
-                    .solve(instr, case.x0, &case.y0, case.xend, tol(&case.rtol), tol(&case.atol), Some(&mut so)),
+                    .solve(instr, case.x0, &case.y0, case.xend, tol(&case.rtol, case.tol_vec), tol(&case.atol, case.tol_vec), Some(&mut so)),
                 "DOP853" => DOP853::builder().maybe_max_step(case.max_step).maybe_first_step(case.first_step)
                     .max_steps(ms.unwrap_or(100_000)).dense_output(!case.low_nodense).build()
-                    .solve(instr, case.x0, &case.y0, case.xend, tol(&case.rtol), tol(&case.atol), Some(&mut so)),
+                    .solve(instr, case.x0, &case.y0, case.xend, tol(&case.rtol, case.tol_vec), tol(&case.atol, case.tol_vec), Some(&mut so)),
                 "RADAU" => {
                     let b = RADAU::builder().maybe_max_step(case.max_step).maybe_min_step(case.min_step).maybe_first_step(case.first_step)
                         .max_steps(ms.unwrap_or(100_000)).jac_storage(storage(&case.jac_storage, n, bw)).dense_output(!case.low_nodense);
                     let s = if case.mass_storage == "default" { b.build() } else { b.mass_storage(storage(&case.mass_storage, n, bw)).build() };
-                    s.solve(instr, case.x0, &case.y0, case.xend, tol(&case.rtol), tol(&case.atol), Some(&mut so))
+                    s.solve(instr, case.x0, &case.y0, case.xend, tol(&case.rtol, case.tol_vec), tol(&case.atol, case.tol_vec), Some(&mut so))
                 }
                 _ => BDF::builder().maybe_max_step(case.max_step).maybe_min_step(case.min_step).maybe_first_step(case.first_step)
                     .max_steps(ms.unwrap_or(100_000)).jac_storage(storage(&case.jac_storage, n, bw)).build()
-                    .solve(instr, case.x0, &case.y0, case.xend, tol(&case.rtol), tol(&case.atol), Some(&mut so)),
+                    .solve(instr, case.x0, &case.y0, case.xend, tol(&case.rtol, case.tol_vec), tol(&case.atol, case.tol_vec), Some(&mut so)),
             };
             match res {
                 Ok(r) => Outcome::Low { status: status_name(r.status).to_string(), h: r.h, nfev: r.evals.ode, njev: r.evals.jac,
@@ -797,7 +807,22 @@ fn ret_line(case: &Case, s: &Solution, rk: &Ranker, fs_fact: Value, dir: f64, ti
                     for q in 0..v2.len() { if !((v2[q] - ye[q]).abs() <= rel * v2[q].abs().max(ye[q].abs()) + 1e-12) { ye_sol = false; } }
                 } else { ye_sol = false; }
             }
-            v.push(json!({"t": tj(te), "g_small": g.abs() <= 1e-6 * gs, "ye_dim": ye.len() == n, "ye_sol": ye_sol}));
+            // located to root-finder accuracy in t: along the library's own continuous solution the event function
+            // changes sign (or vanishes) within +-1e-9 (1 + |t_e|) of t_e - 500 times the root finder's own tolerance
+            // (2e-12 + 4 eps |t|).  The handler's documented shortcut reports an event AT a step end whose |g| <= 2e-12
+            // without refinement: such events (t_e bit-equal to a reported step end) are accepted on that ground.
+            // Only decided where both probes are inside the dense span and all step ends are reported (no t_eval).
+            let mut g_brk = true;
+            if case.dense && case.t_eval.is_none() && ye.len() == n && n > 0 {
+                let dlt = 1e-9 * (1.0 + te.abs());
+                let at_end = s.t.iter().any(|t| t.to_bits() == te.to_bits());
+                if let (Ok(Ok(ya)), Ok(Ok(yb))) = (catch(|| s.sol(te - dlt)), catch(|| s.sol(te + dlt))) {
+                    let (ga, gb) = (case.problem.event(e, te - dlt, &ya), case.problem.event(e, te + dlt, &yb));
+                    let crossing = (ga <= 0.0 && gb >= 0.0) || (ga >= 0.0 && gb <= 0.0);
+                    if ga.is_finite() && gb.is_finite() && !crossing && !(at_end && g.abs() <= 2e-12) { g_brk = false; }
+                }
+            }
+            v.push(json!({"t": tj(te), "g_small": g.abs() <= 1e-6 * gs, "g_brk": g_brk, "ye_dim": ye.len() == n, "ye_sol": ye_sol}));
         }
         ev_facts.push(v);
     }
@@ -809,7 +834,9 @@ fn ret_line(case: &Case, s: &Solution, rk: &Ranker, fs_fact: Value, dir: f64, ti
     let mut worst = 0.0f64;
     if let Some(ms) = case.max_step {
         let ms = ms.abs();
-        if case.t_eval.is_none() && !(case.first_step.is_some()) {
+        // the reported intervals are the accepted steps only when nothing was filtered: no t_eval / first_step pinning,
+        // and no step below the handler's 1e-12 duplicate filter (then naccpt + 1 samples are stored)
+        if case.t_eval.is_none() && !(case.first_step.is_some()) && s.naccpt + 1 == s.t.len() {
             let m = s.t.len();
             for i in 0..m.saturating_sub(1) {
                 let h = (s.t[i + 1] - s.t[i]).abs();
